@@ -112,8 +112,13 @@ def run_config(chk, config):
     outside = []
 
     def on_w(st, site, wid, item, val):
+        # octets that ControlMessage::write (or a helper of it) emits itself must all lie inside the 12-octet header:
+        # anything it emits later would sit between or after the AVPs
         frame = site[0]
-        if "AVP::write" not in frame.ctxname and frame.key != a.ctrl_write["key"] and "Flags::write" not in frame.ctxname:
+        if any("AVP::write" in part for part in frame.ctxname.split(" > ")[1:]):
+            return
+        wr_ = st.cells.get(("obj", "writer"))
+        if not (isinstance(wr_, VWriter) and eng.ent(st, c_le(wr_.W - W0, Lin.const(12)))):
             outside.append(frame.ctxname)
     eng.hooks["w"] = on_w
     rets = eng.analyse(a.ctrl_write["key"], name="ControlMessage::write[%s]" % config)
@@ -124,7 +129,7 @@ def run_config(chk, config):
         toks = [e for e in ev if e[0] in ("w", "wat")]
         wr = st.cells.get(("obj", "writer"))
         total = wr.W - W0
-        own = [e for e in toks if e[4]["fn"].endswith("ControlMessage::write") or e[4]["fn"].endswith("Flags::write")]
+        own = [e for e in toks if own_site(e[4])]
         pats = [e for e in own if e[0] == "wat"]
         good = len(pats) == 1 and toks[-1] is pats[0]
         why = "the Length back-patch is not the single, last writer operation of ControlMessage::write"
@@ -147,7 +152,7 @@ def run_config(chk, config):
     chk.oblig(not outside, "tiling | ControlMessage::write", "octets are emitted between the control header and the Length patch outside AVP::write: %s" % outside[:2],
               {"rule": "AVPs tile the body: only AVP::write emits between header and end", "contexts": outside[:5]},
               {"obligation": "AVPs tile the control message body exactly"})
-    ref = [o for o in eng.obligs.values() if o.kind in ("panic-reach", "unwrap") and o.failed and o.fn.endswith("ControlMessage::write")]
+    ref = [o for o in eng.obligs.values() if o.kind in ("panic-reach", "unwrap") and o.failed and not any("AVP::write" in c for c in o.contexts)]
     chk.oblig(bool(ref), "refusal | ControlMessage::write", "ControlMessage::write has no refusing path for a message over 65535 octets", {},
               {"obligation": "a refusal path exists for messages over 65535 octets"})
 
